@@ -160,6 +160,38 @@ def check_rules(ctx):
         names = [const_str(c.comparators[0]) for c in walk_local(pred.node) if isinstance(c, ast.Compare) and norm(c.left).endswith(".name") and isinstance(c.ops[0], ast.Eq)]
         names = sorted({n for n in names if n})
         accepts_controlled = any(isinstance(c, ast.Call) and dotted(c.func) == "isinstance" and "ControlledGate" in norm(c.args[1]) for c in walk_local(pred.node))
+        # wrapper discrimination: every look through `.wrapped_gate` must be under an isinstance(..., ControlledGate)
+        # test of the same object — Dagger, Power and Exponential have a wrapped_gate too, and the production only
+        # knows how to re-apply a control count
+        pd = Defs(pred.node)
+
+        def _exp(e):
+            hops = 0
+            while isinstance(e, ast.Name) and hops < 3:
+                ds = [x for x in pd.defs.get(e.id, []) if isinstance(x, ast.AST)]
+                if len(ds) != 1:
+                    break
+                e, hops = ds[0], hops + 1
+            return norm(e)
+
+        unwraps = []
+        for n in walk_local(pred.node):
+            if isinstance(n, ast.Attribute) and n.attr == "wrapped_gate":
+                unwraps.append((n, _exp(n.value)))
+            if isinstance(n, ast.Call) and dotted(n.func) == "getattr" and len(n.args) >= 2 and const_str(n.args[1]) == "wrapped_gate":
+                unwraps.append((n, None))
+        guarded_bases = set()
+        for n in walk_local(pred.node):
+            if isinstance(n, ast.BoolOp) and isinstance(n.op, ast.And):
+                for v in n.values:
+                    if isinstance(v, ast.Call) and dotted(v.func) == "isinstance" and len(v.args) == 2 and norm(v.args[1]).split(".")[-1] == "ControlledGate":
+                        guarded_bases.add(_exp(v.args[0]))
+            if isinstance(n, ast.If) and isinstance(n.test, ast.Call) and dotted(n.test.func) == "isinstance" and len(n.test.args) == 2 and norm(n.test.args[1]).split(".")[-1] == "ControlledGate":
+                guarded_bases.add(_exp(n.test.args[0]))
+        loose = [u for u, base in unwraps if base is None or base not in guarded_bases]
+        ctx.check(not loose, R4, ci.key + ":wrapper-discrimination", "the predicate looks through a wrapper only after testing that it is a ControlledGate", f"the predicate reads `{short(loose[0]) if loose else ''}` without first testing isinstance(..., ControlledGate): Dagger, Power and Exponential wrappers have a wrapped_gate too, so e.g. {names[0] if names else 'the gate'}.dagger is matched and replaced by the decomposition of the un-modified gate", f"{pred.module.relpath}:{loose[0].lineno}" if loose else pred)
+        if loose:
+            accepts_controlled = True
         if len(names) != 1 or names[0] not in by_name:
             ctx.undecided(R3, ci.key, f"cannot identify the single built-in gate this rule targets (names {names})", ci)
             continue
@@ -255,4 +287,4 @@ def run(ctx):
     ctx.floor("C18-D1", 4)
     ctx.floor("C18-D2", 2)
     ctx.floor("C18-D3", 1)
-    ctx.floor("C18-D4", 5)
+    ctx.floor("C18-D4", 6)
